@@ -150,10 +150,16 @@ def deletePre (ext : Ext W) (task : SyncTask) (dry : Bool) (stats : SyncStats) :
     | .error _ => pure (is_dir, stats)
   else pure (is_dir, stats)
 
-/-- THE "ALREADY GONE" RULE: an `Io` error of kind `NotFound` is a success; every other answer stays what it is -/
+/-- the error kinds that mean "the entry is not there (any more)": `NotFound`, and — since the repair recorded as
+    `fixed: C06/spurious-delete-errors/parent-name-reused` — `NotADirectory` (the parent was removed and its name reused by a
+    file, e.g. the working file of a concurrent update: nothing can exist below it) -/
+def goneKind (ext : Ext W) (e : Rs.Err) : Bool :=
+  ext.io_error_kind e == ErrorKind.NotFound || ext.io_error_kind e == ErrorKind.NotADirectory
+
+/-- THE "ALREADY GONE" RULE: an `Io` error of kind `NotFound` / `NotADirectory` is a success; every other answer stays what it is -/
 def goneRule (ext : Ext W) (r : Except Rs.Err Unit) : Except Rs.Err Unit :=
   match r with
-  | .error e => if ext.err_is_io e && ext.io_error_kind e == ErrorKind.NotFound then .ok () else .error e
+  | .error e => if ext.err_is_io e && goneKind ext e then .ok () else .error e
   | .ok u => .ok u
 
 def deleteArm (ext : Ext W) (task : SyncTask) (transferrer : Rs.Opaque) (stats : SyncStats) (dry json : Bool) :
@@ -361,8 +367,8 @@ theorem delete_arm (ext : Ext W) (task : SyncTask) (transferrer verifier : Rs.Op
         simp only [jpR, jpb, jpa, jp0, emitIf, stD]
         cases pm <;> cases json <;> simp
     rcases r with e | u
-    · simp only [scr, oth, goneRule, hR, pure_bind]
-      split <;> simp
+    · simp only [scr, oth, goneRule, goneKind, hR, pure_bind]
+      split <;> rename_i hh <;> simp only [hh, if_true, if_false, ↓reduceIte] <;> simp
     · simp only [scr, goneRule, hR, pure_bind]
   by_cases hc : (dry && !isDir) = true
   case neg =>
@@ -689,12 +695,12 @@ theorem deletePre_stats (ext : Ext W) (task : SyncTask) (dry : Bool) (stats : Sy
 /-- the rule, read as a proposition -/
 theorem goneRule_ok_iff (ext : Ext W) (dres : Except Rs.Err Unit) :
     goneRule ext dres = .ok () ↔
-      dres = .ok () ∨ ∃ e, dres = .error e ∧ ext.err_is_io e = true ∧ ext.io_error_kind e = ErrorKind.NotFound := by
+      dres = .ok () ∨ ∃ e, dres = .error e ∧ ext.err_is_io e = true ∧ goneKind ext e = true := by
   rcases dres with e | u
   · simp only [goneRule]
-    by_cases hc : (ext.err_is_io e && ext.io_error_kind e == ErrorKind.NotFound) = true
+    by_cases hc : (ext.err_is_io e && goneKind ext e) = true
     · simp only [hc, if_true, true_iff]
-      simp only [Bool.and_eq_true, beq_iff_eq] at hc
+      simp only [Bool.and_eq_true] at hc
       exact .inr ⟨e, rfl, hc.1, hc.2⟩
     · simp only [hc]
       constructor
@@ -706,7 +712,7 @@ theorem goneRule_ok_iff (ext : Ext W) (dres : Except Rs.Err Unit) :
   · simp [goneRule]
 
 theorem goneRule_error (ext : Ext W) (dres : Except Rs.Err Unit) (e : Rs.Err) (h : goneRule ext dres = .error e) :
-    dres = .error e ∧ ¬ (ext.err_is_io e = true ∧ ext.io_error_kind e = ErrorKind.NotFound) := by
+    dres = .error e ∧ ¬ (ext.err_is_io e = true ∧ goneKind ext e = true) := by
   rcases dres with e' | u
   · simp only [goneRule] at h
     split at h
@@ -1229,7 +1235,7 @@ theorem delete_eq_execTask (hk : CleanPath k) (hd : task.dest_path = destOf ew.x
     cases hdry : cfg.dryRun
     · simp only [Bool.false_eq_true, if_false]
       rcases hg : ew.xw.w.dst.get? k with _ | (m | _ | t) <;>
-        simp [removeW, hg, goneRule, engineExt]
+        simp [removeW, hg, goneRule, goneKind, engineExt]
     · simp [goneRule]
   rcases hres : runM ((engineExt cfg).transferrer_delete transferrer task.dest_path
       (ew.xw.w.dst.get? k == some .dir)) ew with ⟨dres, ew2⟩
